@@ -60,10 +60,14 @@ def inherit_cases(n, keys):
         for present in itertools.product([0, 1], repeat=n * len(keys)):
             for tgt in names:
                 yield (tuple(names), ext, present, tuple(keys), tgt)
+                # the same graph with values that are falsy (0, "", []) for most entries: a value is a value
+                yield (tuple(names), ext, present, tuple(keys), tgt, "falsy")
 
 
 def inherit_fn(case, wit):
-    names, ext, present, keys, tgt = case
+    falsy = len(case) == 6
+    names, ext, present, keys, tgt = case[:5]
+    FALSY = {"A": 0, "B": "", "C": [], "D": "D"}
     whole = {}
     for i, nm in enumerate(names):
         d = {}
@@ -71,7 +75,7 @@ def inherit_fn(case, wit):
             d["extends"] = ext[i]
         for j, k in enumerate(keys):
             if present[i * len(keys) + j]:
-                d[k] = "%s.%s" % (nm, k)
+                d[k] = FALSY[nm] if falsy else "%s.%s" % (nm, k)
         whole[nm] = d
     excl = [k for k in keys if k.startswith("x")]
     w0 = copy.deepcopy(whole)
@@ -108,7 +112,7 @@ def inherit_fn(case, wit):
                 wit.inc("inherit_excluded_key_skipped")
         if depth >= 2:
             wit.inc("inherit_diamond_or_chain")
-        cls = ("ok", depth, tuple(sorted(exp[1])))
+        cls = ("ok", depth, tuple(sorted(exp[1])), falsy)
     if whole != w0:
         raise Violation("C18.inherit_mutates", "resolving inheritance modified its input settings", "target %s" % tgt)
     return cls
